@@ -47,13 +47,19 @@ pub struct Case {
 /// the index so that every run mixes small and large, with and without objects etc.
 pub fn well_behaved_case(rng: &mut Rng, index: u64) -> Option<Case> {
     let mut o = GenOpts::default();
+    if index % 64 == 7 {
+        // now and then a long program: hundreds of statements, hundreds of constants and labels
+        o.budget = 900;
+        o.max_depth = 4;
+        o.max_funcs = 6;
+    }
     match index % 8 {
         0 => {
             o.budget = 30;
             o.max_depth = 3;
         }
         1 => {
-            o.budget = 160;
+            o.budget = o.budget.max(160);
             o.max_depth = 5;
         }
         2 => o.wild_ints = true,
@@ -200,6 +206,24 @@ pub fn stress_sources() -> Vec<(String, String)> {
         "one-literal-many-chains".into(),
         "function wrap(p) -> object extends p begin let w = 1; end;\nlet a = object begin function m() -> 1; function who() -> 10; end;\nlet b = object extends a begin function m() -> 2; end;\nlet deep = wrap(wrap(wrap(a)));\nprint(\"~ ~\\n\", deep.m(), deep.who());\nlet near = wrap(b);\nprint(\"~ ~\\n\", near.m(), near.who());\nlet nearer = wrap(object extends deep begin function m() -> 3; end);\nprint(\"~ ~ ~\\n\", nearer.m(), wrap(5) + 1, wrap(array(1, 7))[0]);\nprint(\"~ ~\\n\", deep.m(), near.m());\n".into(),
     ));
+    // resolve a method at depth D through one literal, then through the same literal with an override
+    // at depth D-1 (and the other way round), for D = 1..5
+    {
+        let mut s = String::from("function wrap(p) -> object extends p begin let w = 1; end;\nfunction over(p, v) -> object extends p begin function m() -> v; end;\nlet a = object begin function m() -> 1; end;\n");
+        for d in 1..=5 {
+            let mut deep = String::from("a");
+            for _ in 0..d {
+                deep = format!("wrap({})", deep);
+            }
+            let mut near = format!("over(a, {})", 20 + d);
+            for _ in 1..d {
+                near = format!("wrap({})", near);
+            }
+            s.push_str(&format!("let x{} = {};\nlet y{} = {};\nprint(\"~ ~ ~ ~;\", x{}.m(), y{}.m(), x{}.m(), wrap(y{}).m());\n", d, deep, d, near, d, d, d, d));
+        }
+        s.push_str("print(\"\\n\");\n");
+        v.push(("method-resolution-depths".into(), s));
+    }
     // several zero-length arrays and empty objects
     v.push(("empty-allocations".into(), "let k = 0; while k < 3 do begin array(0, k); array(0, begin k end); object begin end; k <- k + 1 end;\nprint(\"~ ~ ~\\n\", array(0, 1), array(0, begin 2 end), object begin end);\n".into()));
     // user-defined methods that carry the Feeny names of built-ins
